@@ -161,6 +161,7 @@ class Ctx:
     frozen: set = field(default_factory=set)                  # names that must not be redeclared
     names: Optional[list] = None                              # restricted pool for declared names / loop variables
     whole_array_odds: int = 3                                 # 1 in (n+1) symbolic arrays is the whole-array form {U}
+    complex_coefficients: bool = False                        # complex literals inside parameter expressions
     array_elems: Dict[str, list] = field(default_factory=dict)  # name -> (vtype, flat list of element expressions)
     depth: int = 3
     ascii_only: bool = True
@@ -432,6 +433,13 @@ def plain_value(draw, ctx, allow_nonnumeric=True, symbolic=None):
         return F1(A.Var(draw(st.sampled_from(ctx.strs + ctx.bools))))
     if ((symbolic == "params" and ctx.params) or (symbolic == "regs" and ctx.regs)) and draw(st.integers(0, 4)) == 0:
         return draw(risky_symbolic(ctx, symbolic))
+    if symbolic == "params" and ctx.complex_coefficients and draw(st.integers(0, 4)) == 0:
+        # a complex coefficient of a template parameter
+        e = draw(num_expr(ctx, kind="real", symbolic=symbolic))
+        cz = draw(num_complex(allow_lead_sign=False))
+        p = A.Param(draw(st.sampled_from(ctx.params))) if ctx.params else None
+        extra = [A.Operand("", cz)] + ([A.Operand("", p)] if p is not None else [])
+        return A.Flat(e.operands + extra, e.ops + [draw(st.sampled_from(["+", "*", "-"]))] + (["*"] if p is not None else []))
     return draw(num_expr(ctx, kind="real", symbolic=symbolic))
 
 
@@ -725,12 +733,14 @@ class Cfg:
     max_mode: int = 12
     names: Optional[list] = None     # restricted pool for variable / loop / parameter names
     whole_array_odds: int = 3
+    complex_coefficients: bool = False
     array_weight: int = 1
 
 
 @st.composite
 def script(draw, cfg=Cfg()):
-    ctx = Ctx(depth=cfg.depth, ascii_only=cfg.ascii_only, names=cfg.names, whole_array_odds=cfg.whole_array_odds)
+    ctx = Ctx(depth=cfg.depth, ascii_only=cfg.ascii_only, names=cfg.names, whole_array_odds=cfg.whole_array_odds,
+              complex_coefficients=cfg.complex_coefficients)
     name = draw(ident())
     version = draw(st.one_of(st.sampled_from(["1.0", "0.0", "1.0", "12.5e-1", "1e5"]), real_lexeme()))
     target = ptype = None
